@@ -26,7 +26,7 @@ def is_non_public_numeric_address(host):
         return True # too weird, don't connect
     return False
 
-HINT_RE = re.compile(r"^[^:]*:(%s|%s):(\d+){1,5}$" % (DOTTED_QUAD_RESTR,
+HINT_RE = re.compile(r"^[^:]*:(%s|%s):(\d{1,5})$" % (DOTTED_QUAD_RESTR,
                                                       DNS_NAME_RESTR))
 
 class add_context(object):
